@@ -1,7 +1,7 @@
 /-
-  C07 — open findings: the full statement `walk_refines_spec_full` is FALSE for the model of the
-  unchanged backend.Walk, and every hypothesis of `walk_refines_spec_partial` is individually
-  necessary. Each witness is a tiny tree evaluated by the kernel (`decide`); the harness replays
+  C07 — open findings: the full statement `walk_refines_spec_full` is FALSE for the model of
+  backend.Walk (as repaired by C07-fix-1..3), and every substantive hypothesis of
+  `walk_refines_spec_partial` is individually necessary. Each witness is a tiny tree evaluated by the kernel (`decide`); the harness replays
   the same inputs on the real backend.Walk (harness/cmd/vharness/c07.go: c07Corpus).
 
   For every witness two facts are shown: the model's page is not the specified page (`¬ Refines`),
@@ -23,8 +23,7 @@ keys `a/x`, `a.b`: fs.WalkDir visits directory `a` before the file `a.b`, but `a
 def tOrder : List Tree := [.dir [97] [.file [120]], .file [97, 46, 98]]
 
 theorem order_hyps : wfList tOrder = true ∧ ocList tOrder = false ∧
-    populatedList fileOnly [] [] tOrder = true ∧ noSkipFileList [] tOrder = true ∧
-    rootClean [] [] = true ∧ markerClear (keysList fileOnly [] [] tOrder) [] [] [] = true := by decide
+    populatedList fileOnly [] [] tOrder = true ∧ markerClear (keysList fileOnly [] [] tOrder) [] [] [] = true := by decide
 
 theorem order_page : walk ⟨[], [], [], 1, fileOnly, []⟩ tOrder =
     ⟨[⟨[97, 47, 120], 3, [97, 47, 120]⟩], [], true, [97, 47, 120]⟩ := by decide
@@ -51,8 +50,7 @@ theorem not_walk_refines_spec_full : ¬ walk_refines_spec_full := by
 def tMarker : List Tree := [.dir [97] [.file [98], .file [99]]]
 
 theorem marker_hyps : wfList tMarker = true ∧ ocList tMarker = true ∧
-    populatedList fileOnly [] [] tMarker = true ∧ noSkipFileList [] tMarker = true ∧
-    rootClean [] [] = true ∧
+    populatedList fileOnly [] [] tMarker = true ∧
     markerClear (keysList fileOnly [] [] tMarker) [] [47] [97, 47, 98] = false ∧
     markerClear (keysList fileOnly [] [] tMarker) [] [47] [97] = false := by decide
 
@@ -80,7 +78,7 @@ prefix `a-`; the marker IS server-issued. -/
 def tDelim : List Tree := [.file [97], .file [97, 45, 98]]
 
 theorem delim_hyps : wfList tDelim = true ∧ ocList tDelim = true ∧
-    populatedList fileOnly [] [] tDelim = true ∧ noSkipFileList [] tDelim = true ∧ rootClean [] [] = true ∧
+    populatedList fileOnly [] [] tDelim = true ∧
     serverIssued (keysList fileOnly [] [] tDelim) [] [45] [97] = true := by decide
 
 theorem delim_first_page : walk ⟨[], [45], [], 1, fileOnly, []⟩ tDelim = ⟨[⟨[97], 1, [97]⟩], [], true, [97]⟩ := by decide
@@ -111,7 +109,7 @@ so it is returned again on every page. -/
 def tDirObj : List Tree := [.dir [97] [], .file [98]]
 
 theorem dirobj_hyps : wfList tDirObj = true ∧ ocList tDirObj = true ∧
-    populatedList allObjs [] [] tDirObj = true ∧ noSkipFileList [] tDirObj = true ∧ rootClean [] [] = true ∧
+    populatedList allObjs [] [] tDirObj = true ∧
     markerClear (keysList allObjs [] [] tDirObj) [] [] [] = true := by decide
 
 theorem dirobj_loops :
@@ -129,7 +127,7 @@ keys `a/`, `a/b`, prefix `a/`: the object `a/` is never listed. -/
 def tDirObj2 : List Tree := [.dir [97] [.file [98]]]
 
 theorem dirobj2_hyps : wfList tDirObj2 = true ∧ ocList tDirObj2 = true ∧
-    populatedList allObjs [] [] tDirObj2 = true ∧ noSkipFileList [] tDirObj2 = true ∧ rootClean [] [97, 47] = true ∧
+    populatedList allObjs [] [] tDirObj2 = true ∧
     markerClear (keysList allObjs [] [] tDirObj2) [97, 47] [47] [] = true := by decide
 
 theorem dirobj2_rejected :
@@ -149,7 +147,7 @@ prefix. On disk this needs a directory that is not an explicit object and holds 
 def tPhantom : List Tree := [.dir [97] [], .file [98]]
 
 theorem phantom_hyps : wfList tPhantom = true ∧ ocList tPhantom = true ∧
-    populatedList fileOnly [] [] tPhantom = false ∧ noSkipFileList [] tPhantom = true ∧ rootClean [] [] = true ∧
+    populatedList fileOnly [] [] tPhantom = false ∧
     markerClear (keysList fileOnly [] [] tPhantom) [] [47] [] = true := by decide
 
 theorem phantom_rejected :
@@ -157,40 +155,5 @@ theorem phantom_rejected :
     result fileOnly (keysList fileOnly [] [] tPhantom) [] [47] [] 10 = ⟨[⟨[98], 1, [98]⟩], [], false, []⟩ ∧
     pageOkB fileOnly (keysList fileOnly [] [] tPhantom) [] [47] [] 10
       (walk ⟨[], [47], [], 10, fileOnly, []⟩ tPhantom) = false := by decide
-
-/-! ### 7. a FILE named like a skipped directory (`walk:skip-name-below-top-level`)
-skip list [`0`], keys `x/0`, `x/z`: the callback returns fs.SkipDir for the file `x/0`, which makes
-io/fs.walkDir leave the directory `x`: `x/z` is lost. -/
-
-def tSkipFile : List Tree := [.dir [120] [.file [48], .file [122]]]
-
-theorem skipfile_hyps : wfList tSkipFile = true ∧ ocList tSkipFile = true ∧
-    populatedList fileOnly [[48]] [] tSkipFile = true ∧ noSkipFileList [[48]] tSkipFile = false ∧
-    rootClean [[48]] [] = true ∧ markerClear (keysList fileOnly [[48]] [] tSkipFile) [] [] [] = true := by decide
-
-theorem skipfile_rejected :
-    walk ⟨[], [], [], 10, fileOnly, [[48]]⟩ tSkipFile = ⟨[], [], false, []⟩ ∧
-    result fileOnly (keysList fileOnly [[48]] [] tSkipFile) [] [] [] 10 =
-      ⟨[⟨[120, 47, 122], 3, [120, 47, 122]⟩], [], false, []⟩ ∧
-    pageOkB fileOnly (keysList fileOnly [[48]] [] tSkipFile) [] [] [] 10
-      (walk ⟨[], [], [], 10, fileOnly, [[48]]⟩ tSkipFile) = false := by decide
-
-/-! ### 8. prefix below a skipped directory (`walk:prefix-below-skipdir`)
-skip list [`0`], internal path `0/m/x`, key `y`, prefix `0/m/`: Walk starts at root `0/m`, whose
-own name `m` is not skipped: the internal name `0/m/x` is listed. -/
-
-def tBelow : List Tree := [.dir [48] [.dir [109] [.file [120]]], .file [121]]
-
-theorem below_hyps : wfList tBelow = true ∧ ocList tBelow = true ∧
-    populatedList fileOnly [[48]] [] tBelow = true ∧ noSkipFileList [[48]] tBelow = true ∧
-    rootClean [[48]] [48, 47, 109, 47] = false ∧
-    markerClear (keysList fileOnly [[48]] [] tBelow) [48, 47, 109, 47] [] [] = true := by decide
-
-theorem below_rejected :
-    walk ⟨[48, 47, 109, 47], [], [], 10, fileOnly, [[48]]⟩ tBelow =
-      ⟨[⟨[48, 47, 109, 47, 120], 5, [48, 47, 109, 47, 120]⟩], [], false, []⟩ ∧
-    keysList fileOnly [[48]] [] tBelow = [[121]] ∧
-    pageOkB fileOnly (keysList fileOnly [[48]] [] tBelow) [48, 47, 109, 47] [] [] 10
-      (walk ⟨[48, 47, 109, 47], [], [], 10, fileOnly, [[48]]⟩ tBelow) = false := by decide
 
 end Vgw.Open.C07
